@@ -149,12 +149,12 @@ def run(pid, tier):
     o.samples.append({'kind': 'Poisson PD steps S/Q: measured acceptance suffix', 'event': json.loads(plines[0])})
     # Zipf<f64> / Zeta<f64> pointwise (the f32 instantiations have the exact law above)
     rjf = wd / 'rej64.ndjson'
-    r12 = tlc('MCRej64', 'MCRej64.cfg', pid, 'rej64_cases', workers=1, timeout=1200, heap='2g', pipe_to=[str(RDV), 'btpe-drive', '--out', str(rjf)])
+    r12 = tlc('MCRej64', 'MCRej64.cfg', pid, 'rej64_cases', workers=1, timeout=1200, heap='2g', env={'TIER': tier}, pipe_to=[str(RDV), 'btpe-drive', '--out', str(rjf)])
     require_ok(r12, 'MCRej64')
     s12 = json.loads(r12.consumer_out.strip().splitlines()[-1])
     if s12['events'] < 150:
         raise ToolError('btpe-drive (rej64): too few events: %s' % s12)
-    r13 = tlc('TraceBtpe', 'TraceBtpe.cfg', pid, 'rej64_trace', trace_mode=True, env={'TRACE': rjf}, timeout=1200, heap='4g')
+    r13 = tlc('TraceBtpe', 'TraceBtpe.cfg', pid, 'rej64_trace', trace_mode=True, env={'TRACE': rjf, 'TIER': tier}, timeout=1200, heap='4g')
     require_ok(r13, 'TraceBtpe (rej64)')
     if r13.rejected or r13.violated:
         raise ToolError('rej64 trace not consumed: %s' % (r13.rejected or r13.violated))
